@@ -548,9 +548,13 @@ def main():
             tmp = os.path.join(CACHE, "run", f"{pid}.replay.in")
             os.makedirs(os.path.dirname(tmp), exist_ok=True)
             with open(tmp, "w") as f:
+                hdr = re.compile(r"^(property|tier|seed|kind|what|replay with|verdict|total failing cases|also broken|broken-obligation|correspondence disagreements|op|---|      )\b|^#|^\s*$")
                 for line in open(a.replay, encoding="utf-8"):
                     if line.startswith("op: "):
                         f.write(line[4:].split(" => ")[0].rstrip("\n") + "\n")
+                    elif re.match(r"^[a-z0-9]+\.[a-z0-9]+ ", line) and not hdr.match(line):
+                        # a bare operation line (the format of corpus/<ID>/*.ops)
+                        f.write(line.split(" => ")[0].rstrip("\n") + "\n")
             if cfg.get("runners"):
                 suite0 = next(iter(cfg["runners"]))
                 o, v = run_external(pid, suite0, cfg["runners"][suite0], "quick", 0, replay=tmp)
